@@ -143,13 +143,13 @@ def handleDecStep (args : List String) (impl : List String) : String :=
 
 structure State where
   building : HashMap Nat DefBuild := {}
-  toks : HashMap Nat (Tokenizer Float) := {}
+  toks : HashMap Nat (Tokenizer Score) := {}
   /-- C15: the converted definition of a slot as far as the property speaks about it, and the source
       tokens an independent parser found (SRCT lines). -/
   convs : HashMap Nat Spec.Converted := {}
   srcs : HashMap Nat (Array Spec.SrcToken) := {}
 
-def showInit : Except InitError (Tokenizer Float) → String
+def showInit : Except InitError (Tokenizer Score) → String
   | .ok _ => "OK"
   | .error .invalidScores => "ERR InvalidScores"
   | .error .invalidEncoder => "ERR InvalidEncoder"
@@ -467,18 +467,18 @@ namespace Kitoken.Driver
 open Kitoken Std
 
 /-- Bytes an id stands for when spelling text back: vocabulary bytes, or the special token's text. -/
-def spellId (tk : Tokenizer Float) (t : Id) : Option Bytes :=
+def spellId (tk : Tokenizer Score) (t : Id) : Option Bytes :=
   match tk.dec.vocab t with
   | some b => some b
   | none => (tk.dec.special t).map (·.1)
 
-def encoderUnknown (tk : Tokenizer Float) : Option Id :=
+def encoderUnknown (tk : Tokenizer Score) : Option Id :=
   match tk.encoder with
   | .bpe c => c.unknown
   | .unigram c => c.unknown
   | .wordpiece c => c.unknown
 
-def encoderFallback (tk : Tokenizer Float) : List Fallback :=
+def encoderFallback (tk : Tokenizer Score) : List Fallback :=
   match tk.encoder with
   | .bpe c => c.fallback
   | .unigram c => c.fallback
@@ -486,12 +486,12 @@ def encoderFallback (tk : Tokenizer Float) : List Fallback :=
 
 /-- What the encoder input must spell (C02): ordinary parts' texts (plus the end-of-word suffix for BPE)
     and special parts' texts, in order. -/
-def expectedSpelling (tk : Tokenizer Float) (ps : List TextPart) : Bytes :=
+def expectedSpelling (tk : Tokenizer Score) (ps : List TextPart) : Bytes :=
   let eow : Bytes := match tk.encoder with | .bpe c => c.eow.getD [] | _ => []
   ps.flatMap fun p => if p.special != INVALID then p.text else p.text ++ eow
 
 /-- Spelling of the ids; WordPiece continuation entries lose their prefix, and words are not separated. -/
-def spelledBy (tk : Tokenizer Float) (ids : List Id) : Option Bytes :=
+def spelledBy (tk : Tokenizer Score) (ids : List Id) : Option Bytes :=
   let pre := tk.dec.subwordPrefix
   ids.foldl (fun acc t =>
     match acc, spellId tk t with
@@ -501,7 +501,7 @@ def spelledBy (tk : Tokenizer Float) (ids : List Id) : Option Bytes :=
     | _, _ => none) (some [])
 
 /-- Piece-level specification by encoder kind (what one ordinary part yields by itself). -/
-def pieceSpecOf (tk : Tokenizer Float) (text : Bytes) : Res (List Id) :=
+def pieceSpecOf (tk : Tokenizer Score) (text : Bytes) : Res (List Id) :=
   match tk.encoder with
   | .bpe c => Spec.bpePieceSpec c text
   | .unigram c =>
@@ -527,7 +527,7 @@ def alignPart (tokOf : Id → Option Bytes) (inVocab : Bytes → Bool) (unitLen 
         if startsWith rest b then alignPart tokOf inVocab unitLen unk (rest.drop b.length) ids
         else .error "spelling"
 
-def alignParts (tk : Tokenizer Float) (inVocab : Bytes → Bool) (unitLen : Bytes → Nat) (unk : Id) :
+def alignParts (tk : Tokenizer Score) (inVocab : Bytes → Bool) (unitLen : Bytes → Nat) (unk : Id) :
     List TextPart → List Id → Except String Unit
   | [], ids => if ids.isEmpty then .ok () else .error "spelling-extra-ids"
   | p :: ps, ids =>
@@ -542,7 +542,7 @@ def alignParts (tk : Tokenizer Float) (inVocab : Bytes → Bool) (unitLen : Byte
 
 /-- The alignment applies when the unknown id is unambiguous and stands for one unit: Unigram, or BPE
     without an end-of-word suffix, with `Unknown` at the head of the fallback list. -/
-def unknownAlignment (tk : Tokenizer Float) (ps : List TextPart) (ids : List Id) : Option String :=
+def unknownAlignment (tk : Tokenizer Score) (ps : List TextPart) (ids : List Id) : Option String :=
   let charLen (b : Bytes) : Nat := (Utf8.decodeOne b).2
   let run (u : Id) (inVocab : Bytes → Bool) (unitLen : Bytes → Nat) : Option String :=
     if (tk.dec.vocab u).isSome then none
@@ -560,12 +560,12 @@ def unknownAlignment (tk : Tokenizer Float) (ps : List TextPart) (ids : List Id)
       | _, _, _ => none)
   | .wordpiece _ => none
 
-def padIds (tk : Tokenizer Float) : List Id :=
+def padIds (tk : Tokenizer Score) : List Id :=
   tk.config.processing.filterMap fun | .pad id _ _ _ => some id | _ => none
 
 /-- Verdicts of the pipeline-level properties on what the implementation returned. `which` selects
     the property: "2" spelling, "7" specials, "9" independence, "18" no crash. -/
-def encVerdict (which : String) (tk : Tokenizer Float) (ext : Ext) (t : Bytes) (s : Bool) (impl : List String) : String :=
+def encVerdict (which : String) (tk : Tokenizer Score) (ext : Ext) (t : Bytes) (s : Bool) (impl : List String) : String :=
   match parseImplIds impl with
   | none => "NO-VERDICT"
   | some (.panic _) => "FAILS panic"
